@@ -52,6 +52,10 @@ def guards(rep, u):
         curve_n = r_mpt.addr_of_field(_p(fn, 0), "n")
         r_mpt.check_guard(rep, fn, "bn_cmp(sign_r, n)", r_mpt.call_atom("bn_cmp", [_p(fn, 2), curve_n]), cmp_dom, cmp_lt)
         r_mpt.check_guard(rep, fn, "bn_cmp(sign_s, n)", r_mpt.call_atom("bn_cmp", [_p(fn, 3), curve_n]), cmp_dom, cmp_lt)
+        # lower end of [1, n-1]: r = 0 makes u2 = 0 and R = u1*G - on a curve whose base point has x = 0 (CryptoPro-C, XchB)
+        # (r = 0, s = e) then verifies under every public key; s = 0 is refused only because the inverse fails
+        r_mpt.check_guard(rep, fn, "bn_is_zero(sign_r)", r_mpt.call_atom("bn_is_zero", [_p(fn, 2)]), (0, 1), (0,))
+        r_mpt.check_guard(rep, fn, "bn_is_zero(sign_s)", r_mpt.call_atom("bn_is_zero", [_p(fn, 3)]), (0, 1), (0,))
         r_mpt.check_guard(rep, fn, "R.infinity", r_mpt.field_atom("infinity"), (0, 1), (0,))
         # final comparison v == r : bn_cmp(<local>, sign_r) or bn_cmp(sign_r, <local>)
         def final_cmp(n, parents, fn=fn):
